@@ -306,6 +306,12 @@ func c10(ctx *Ctx) {
 			c10SameRefText(ctx, u)
 		}
 	}
+	// part E: two definitions whose names give the same Go type name and that differ in one keyword only: each referrer keeps the
+	// behaviour of an inline copy of ITS target (a declaration shared by mistake shows as the other definition's behaviour)
+	runBehaviour(ctx, behaviour{Name: "same-name-pairs", Cases: c10SameNamePairs(), Values: true, K: 1, Devs: c10Devs,
+		DocFilter: func(sc *SCase, d *refmodel.Doc, tv refmodel.Verdict) bool {
+			return !strings.Contains(d.Class, "type:") && !strings.Contains(d.Class, "multibyte")
+		}})
 	ctx.Run.Assume("http(s) references cannot be exercised (no network)", "YAML targets are written in flow (JSON) style so that the reference model can read them",
 		"sibling keywords next to $ref are not used")
 }
@@ -502,4 +508,16 @@ func lastLine(s string) string {
 		s = s[i+1:]
 	}
 	return trunc(s, 200)
+}
+
+
+// c10SameNamePairs: the one-keyword pairs without the pair that differs inside an anyOf list (folded together: KF-C14-4, C14's subject).
+func c10SameNamePairs() []SCase {
+	var out []SCase
+	for _, c := range sameNamePairs("C10") {
+		if c.Axes["leaf"] != "anyOf-branches" {
+			out = append(out, c)
+		}
+	}
+	return out
 }
